@@ -63,8 +63,8 @@ def tap (m : Int) (length : α) (segments : Nat) (left center : Bool) : Option (
 def hexChamferRadius (w : α) : α :=
   sqrt ((lit 1 / lit 4 : α) * w * (lit 1 / lit 4) * w + (lit 1 / lit 2 : α) * w * (lit 1 / lit 2) * w)
 
-/-- `hex_bolt` (repaired: the chamfer cutters are built un-centred, the whole bolt is centred once) -/
-def hexBolt (m : Int) (length headHeight : α) (segments : Nat) (leadIn : α) (chamfered left center : Bool) :
+/-- the un-centred bolt -/
+def hexBoltCore (m : Int) (length headHeight : α) (segments : Nat) (leadIn : α) (chamfered left : Bool) :
     Option (Scad α) := do
   let r ← lookup m
   let pitch : α := Gen.Dec.val r.pitch
@@ -78,11 +78,16 @@ def hexBolt (m : Int) (length headHeight : α) (segments : Nat) (leadIn : α) (c
   let head := if chamfered then
       Scad.sub head1 (externalCylinderChamfer (Gen.Dec.val r.chamferSize) 1 (hexChamferRadius headD) headHeight segments false)
     else head1
-  let bolt := Scad.add rod head
-  pure (if center then translate ⟨0, 0, -((headHeight + length) / lit 2)⟩ [bolt] else bolt)
+  pure (Scad.add rod head)
 
-/-- `hex_nut` (repaired likewise) -/
-def hexNut (m : Int) (height : α) (segments : Nat) (chamfered left center : Bool) : Option (Scad α) := do
+/-- `hex_bolt` (repaired: the chamfer cutters are built un-centred, the whole bolt is centred once) -/
+def hexBolt (m : Int) (length headHeight : α) (segments : Nat) (leadIn : α) (chamfered left center : Bool) :
+    Option (Scad α) :=
+  (hexBoltCore m length headHeight segments leadIn chamfered left).map fun bolt =>
+    if center then translate ⟨0, 0, -((headHeight + length) / lit 2)⟩ [bolt] else bolt
+
+/-- the un-centred nut -/
+def hexNutCore (m : Int) (height : α) (segments : Nat) (chamfered left : Bool) : Option (Scad α) := do
   let r ← lookup m
   let w : α := Gen.Dec.val r.nutWidth
   let tap0 ← tap m (height + lit 20) segments left false
@@ -93,7 +98,12 @@ def hexNut (m : Int) (height : α) (segments : Nat) (chamfered left center : Boo
   let nut := if chamfered then
       Scad.sub nut0 (externalCylinderChamfer (Gen.Dec.val r.chamferSize) 1 (hexChamferRadius w) height segments false)
     else nut0
-  pure (if center then translate ⟨0, 0, -height / lit 2⟩ [nut] else nut)
+  pure nut
+
+/-- `hex_nut` (repaired likewise) -/
+def hexNut (m : Int) (height : α) (segments : Nat) (chamfered left center : Bool) : Option (Scad α) :=
+  (hexNutCore m height segments chamfered left).map fun nut =>
+    if center then translate ⟨0, 0, -height / lit 2⟩ [nut] else nut
 
 /-! ### Pipe -/
 namespace Pipe
